@@ -561,11 +561,25 @@ def rule_validate(cx):
         return
     SUCCESS = cx.enums.get('PERSISTENT_ACCESS_SUCCESS')
     INVALID = cx.enums.get('PERSISTENT_ACCESS_INVALID_DATA')
+    missing = [h for h in ('persistent_fetch_checksum', 'persistent_match') if cx.u.fn(h) is None]
+    if missing:
+        return ck.broken('C10.e', 'persistent_validate', cx.where('persistent_validate'),
+                         'the rule reads the verdict off the calls of %s, which no longer exist(s) as a function' % ' and '.join(missing))
     bad = None
     seen = set()
+
+    def value_of(p):
+        """the constant a path returns, also where it returns a variable that a path condition pins to it"""
+        r = strip_cast(p.ret) if p.ret is not None else None
+        if r is not None and r[0] == 'c':
+            return r[1]
+        for cc in p.cond_terms():
+            if cc[0] == 'cmp' and cc[1] == '==' and strip_cast(cc[2]) == r and sym.is_c(cc[3]):
+                return cc[3][1]
+        return None
     for p in ps:
         names = [e.name for e in p.calls()]
-        if p.ret == C(SUCCESS) or p.ret == C(INVALID):
+        if 'persistent_match' in names:
             if names != ['persistent_fetch_checksum', 'persistent_calculate_checksum', 'persistent_match']:
                 bad = 'verdict after call sequence %s' % names
                 continue
@@ -578,9 +592,17 @@ def rule_validate(cx):
                 bad = 'match compares %s' % texts
             tv = [cc for cc in p.cond_terms() if sym.contains(cc, m.result)]
             true_branch = any(cc[1] == '!=' and cc[3] == C(0) for cc in tv if cc[0] == 'cmp')
-            if (p.ret == C(SUCCESS)) != true_branch:
+            v = value_of(p)
+            if v not in (SUCCESS, INVALID):
+                bad = 'after the comparison the result is %s, neither SUCCESS nor INVALID_DATA' % (fmt(p.ret) if p.ret else None)
+                continue
+            if (v == SUCCESS) != true_branch:
                 bad = 'SUCCESS/INVALID_DATA not decided by the match result'
-            seen.add(p.ret[1])
+            seen.add(v)
+        elif value_of(p) in (SUCCESS, INVALID) and names != ['persistent_fetch_checksum', 'persistent_calculate_checksum', 'persistent_match'] \
+                and not any(cc[0] == 'cmp' and cc[1] == '!=' and sym.is_c(cc[3], SUCCESS) and strip_cast(cc[2]) == strip_cast(p.ret) for cc in p.cond_terms()) \
+                and strip_cast(p.ret)[0] == 'c':
+            bad = 'verdict after call sequence %s' % names
         else:
             # error paths return the failing step's access
             if p.ret is None or 'access' not in fmt(p.ret):
